@@ -9,7 +9,8 @@
    failures, every cancellation instant).  No hypothesis is needed. *)
 From Verif.Lib Require Import GoSem.
 From Verif.Model Require Import Lookup.
-From Verif.Proofs Require Import LookupBasics LookupProofs.
+From Verif.Proofs Require Import LookupBasics LookupProofs RunLookupSound.
+From Verif.Corr Require Import Run_Lookup.
 From Coq Require Import Sorted.
 Local Open Scope N_scope.
 
@@ -89,6 +90,25 @@ Proof.
     (split; [exact (iv_wait _ _ _ _ (proj1 I))|exact (iv_waiting _ _ _ _ (proj1 I))]).
 Qed.
 Print Assumptions c01_in_flight.
+
+(* The monitor used by the correspondence check is sound: when the boolean
+   property [c01_result_ok] accepts the trace recorded from the implementation
+   (returned peers, published events), the clauses about the returned list hold
+   of that trace as propositions. *)
+Theorem c01_monitor_sound :
+  forall c, c01_result_ok c = true ->
+    let cfg := c_cfg c in
+    let learned := dedupN (filter (fun p => negb (N.eqb p (cSelf cfg))) (c_seeds c ++ resp_heard (i_events c))) in
+    let failed := resp_failed (i_events c) in
+    (length (i_peers c) <= cK cfg)%nat /\
+    NoDup (i_peers c) /\
+    ~ In (cSelf cfg) (i_peers c) /\
+    StronglySorted (lt_dist (cKey cfg)) (i_peers c) /\
+    (forall p, In p (i_peers c) -> In p learned) /\
+    (forall p, In p (i_peers c) -> ~ In p failed) /\
+    i_peers c = firstn (cK cfg) (sort_dist (cKey cfg) (filter (fun p => negb (memN p failed)) learned)).
+Proof. exact c01_result_ok_sound. Qed.
+Print Assumptions c01_monitor_sound.
 
 (* Non-vacuity: a concrete lookup with a lying peer, a failing peer and K = 2. *)
 Definition ex_cfg : config :=
